@@ -316,6 +316,14 @@ class State:
             if cr.status == "unsat":
                 self._last_backend = cr.backend
                 return z3.unsat, None
+        # stage 1b: the VC with its universally quantified assumptions replaced by finitely many instances is WEAKER than
+        # the VC, so `unsat` here discharges the obligation (cheap and often enough); `sat` is only a candidate.
+        from .smt import candidate_model
+        r3s, m3 = candidate_model(self.pc, neg, min(self.timeout_ms, 3000))
+        self._cand = (r3s, m3)
+        if r3s == "unsat":
+            self._last_backend = "z3-5.1(api,finite instances of the quantified assumptions)"
+            return z3.unsat, None
         self.solver.push()
         self.solver.add(neg)
         r = self.solver.check()
@@ -347,8 +355,7 @@ class State:
             else:
                 # stage 3: candidate counter-model from the VC without its quantified assumptions; it is only ever
                 # used as an input for native replay (a candidate that does not replay decides nothing)
-                from .smt import candidate_model
-                r3s, m3 = candidate_model(self.pc, z3.Not(f), min(self.timeout_ms, 5000))
+                r3s, m3 = getattr(self, "_cand", ("unknown", None))
                 r3 = z3.sat if r3s == "sat" else (z3.unsat if r3s == "unsat" else z3.unknown)
                 if r3 == z3.sat and witness_fn is None and not repeat:
                     # a candidate exists (and no replayer could use it): the obligation is probably false, so a longer
